@@ -194,6 +194,13 @@ func c10Program(r *core.Rng) []ast.Node {
 		ast.Assign{Name: "slices", Value: ast.FuncLit{Params: []string{"a"}, Body: ast.For{Vars: []string{"i"}, Iters: []ast.Node{icall("indices", nm("a"))}, Body: ast.Yield{X: ast.Slice{X: nm("a"), I: il(0), J: nm("i")}}}}},
 		ast.Assign{Name: "cl", Value: ast.FuncLit{Params: []string{"a"}, Body: ast.FuncLit{Params: []string{"t"}, Body: ast.Binary{Op: "+", L: nm("a"), R: ast.ArrayLit{Elems: []ast.Node{nm("t")}}}}}},
 		ast.Assign{Name: "clx", Value: icall("cl", ast.Slice{X: nm("xa"), I: il(1), J: il(3)})},
+		// literals with several computed elements where a later element re-enters the same literal
+		ast.Assign{Name: "lst", Value: ast.FuncLit{Params: []string{"n"}, Body: ast.If{Cond: ast.Binary{Op: "<=", L: nm("n"), R: il(0)}, Then: arr(0, 0),
+			Else: ast.ArrayLit{Elems: []ast.Node{nm("n"), icall("lst", ast.Binary{Op: "-", L: nm("n"), R: il(1)})}}}}},
+		ast.Assign{Name: "lstk", Value: ast.FuncLit{Params: []string{"n"}, Body: ast.If{Cond: ast.Binary{Op: "<=", L: nm("n"), R: il(0)}, Then: arr(7, 0, 0, 9),
+			Else: ast.ArrayLit{Elems: []ast.Node{il(7), nm("n"), icall("lstk", ast.Binary{Op: "-", L: nm("n"), R: il(1)}), ast.Binary{Op: "*", L: nm("n"), R: il(2)}, il(9)}}}}},
+		// two generators of one function suspended inside the same literal
+		ast.Assign{Name: "pairs", Value: ast.FuncLit{Params: []string{"n"}, Body: ast.For{Vars: []string{"i"}, Iters: []ast.Node{icall("fromto", il(0), nm("n"))}, Body: ast.Yield{X: ast.ArrayLit{Elems: []ast.Node{nm("i"), ast.Binary{Op: "+", L: nm("i"), R: il(1)}, nm("n")}}}}}},
 	)
 	vars := []string{"xa"}
 	svars := []string{"xs"}
@@ -205,7 +212,7 @@ func c10Program(r *core.Rng) []ast.Node {
 	for k := r.Range(6, 16); k > 0; k-- {
 		a := nm(vars[r.Intn(len(vars))])
 		b := nm(vars[r.Intn(len(vars))])
-		switch r.Intn(12) {
+		switch r.Intn(13) {
 		case 0: // slice of a (possibly sliced) array: index bounds from its length
 			v := newVar("ya")
 			ss = append(ss, ast.Assign{Name: v, Value: ast.Slice{X: a, I: il(int64(r.Intn(2))), J: ast.Binary{Op: "-", L: ast.Unary{Op: "#", X: a}, R: il(int64(r.Intn(2)))}}})
@@ -254,6 +261,19 @@ func c10Program(r *core.Rng) []ast.Node {
 				icall("zmod", a))
 		case 10: // iterate and index
 			ss = append(ss, ast.For{Vars: []string{"ze"}, Iters: []ast.Node{icall("elems", a)}, Body: ast.Binary{Op: "+", L: ast.ArrayLit{Elems: []ast.Node{nm("ze")}}, R: a}})
+		case 11: // re-entered literals
+			v := newVar("ya")
+			switch r.Intn(3) {
+			case 0:
+				ss = append(ss, ast.Assign{Name: v, Value: icall("lst", il(int64(r.Range(1, 5))))})
+			case 1:
+				ss = append(ss, ast.Assign{Name: v, Value: icall("lstk", il(int64(r.Range(1, 5))))})
+			default:
+				ss = append(ss, ast.Block{Stmts: []ast.Node{ast.Assign{Name: v, Value: ast.ArrayLit{}},
+					ast.For{Vars: []string{"zp", "zq"}, Iters: []ast.Node{icall("pairs", il(3)), icall("pairs", il(4))}, Body: ast.Assign{Name: v, Value: ast.Binary{Op: "+", L: nm(v), R: ast.ArrayLit{Elems: []ast.Node{nm("zp"), nm("zq")}}}}},
+					nm(v)}})
+			}
+			vars = append(vars, v)
 		default: // literals again: must evaluate to the same value as the first time
 			ss = append(ss, ast.ArrayLit{Elems: []ast.Node{icall("mkconst"), icall("mklit", il(1)), icall("mkstr"), icall("rec", il(2)), arr(1, 2, 3)}})
 		}
